@@ -190,10 +190,28 @@ def crc16_xmodem(e, cells):
     return z3.simplify(crc)
 
 
+def crc16_arc(e, cells):
+    """bit-serial CRC16/ARC (reflected poly 0xA001, init 0) - used for lock slots only"""
+    if all(not is_sym(x.v) for x in cells):
+        crc = 0
+        for x in cells:
+            crc ^= x.v
+            for _ in range(8):
+                crc = (crc >> 1) ^ 0xA001 if crc & 1 else crc >> 1
+        return crc
+    crc = z3.BitVecVal(0, 16)
+    for x in cells:
+        crc = crc ^ z3.ZeroExt(8, bv(x.v, 8))
+        for _ in range(8):
+            crc = z3.If(z3.Extract(0, 0, crc) == 1, z3.LShR(crc, 1) ^ 0xA001, z3.LShR(crc, 1))
+    return z3.simplify(crc)
+
+
 @model(r'(?:crc16::)?State(<.*>)?::calculate$')
 def _(e, c, a):
-    if 'XMODEM' not in c: raise Unmodelled('crc16 variant ' + c)
-    return crc16_xmodem(e, deref_vec(a[0]).cells)
+    if 'XMODEM' in c: return crc16_xmodem(e, deref_vec(a[0]).cells)
+    if '<ARC>' in c or '::ARC' in c: return crc16_arc(e, deref_vec(a[0]).cells)
+    raise Unmodelled('crc16 variant ' + c)
 
 
 _CRC64_TAB = None
